@@ -1,5 +1,5 @@
 from .. import facts
-from ..rules import algebra, factors, floatmask
+from ..rules import opacity, algebra, factors, floatmask
 
 
 def run(ck):
@@ -14,3 +14,4 @@ def run(ck):
     floatmask.r5_float_mask(ck, P)
     floatmask.r6_c_mask(ck, P, decided or ())
     floatmask.r7_set_sat(ck, P)
+    opacity.r2_opacity_flags(ck, P)          # C09-R2: a wrongly opaque source has its operator rewritten and the equations no longer hold
